@@ -144,3 +144,62 @@ Example C04_script2_example :
   script_check [] (script2 (enc_new ex2_sys ex_nm) 2) = true /\
   script_check [] (script Fixed (enc_new ex2_sys ex_nm) 0 2) = false.
 Proof. exact ex2_script2. Qed.
+
+(** Third proposed repair (patches/0003; [Encoding.init_order] / [init_at3] / [script3]): at step 0
+    the states are emitted in the dependency order of their init expressions (repeated passes over
+    the declaration order, a state is emitted once every state its init expression reads has been
+    emitted; states on a dependency cycle keep their declaration order at the end), combined with
+    the lazy signal definitions of the second repair.  The script is accepted for EVERY well-formed
+    system whose init dependencies are acyclic ([init_deps_acyclic]: some rank on the states
+    decreases from a state to the states its init expression reads) - in particular an init
+    expression may read a state declared later (finding use-before-declare:init-reads-later-state) -
+    and it is faithful.  The hypothesis of [C04_script2_wf] is a special case. *)
+From Patronus Require Import EncodingOrder.
+Theorem C04_script3_wf :
+  forall (sy : sys) (nm : expr -> string) (n : nat),
+    sys_wf sy = true -> names_ok (enc_new sy nm) = true -> init_deps_acyclic sy ->
+    script_check [] (script3 (enc_new sy nm) n) = true.
+Proof. exact script3_wf_sys. Qed.
+Print Assumptions C04_script3_wf.
+
+(** the same with the executable test used by the driver: the passes order every state *)
+Theorem C04_script3_wf_b :
+  forall (sy : sys) (nm : expr -> string) (n : nat),
+    sys_wf sy = true -> names_ok (enc_new sy nm) = true -> init_order_complete_b (enc_new sy nm) = true ->
+    script_check [] (script3 (enc_new sy nm) n) = true.
+Proof. exact script3_wf_b_sys. Qed.
+Print Assumptions C04_script3_wf_b.
+
+Theorem C04_script3_covers_script2 :
+  forall (sy : sys) (nm : expr -> string),
+    sys_wf sy = true -> inits_read_earlier (enc_new sy nm) -> init_deps_acyclic sy.
+Proof. exact read_earlier_acyclic_sys. Qed.
+Print Assumptions C04_script3_covers_script2.
+
+Theorem C04_script3_faithful :
+  forall (sy : sys) (nm : expr -> string) (rho0 : env) (frees : list env) (sigma0 : env),
+    sys_wf sy = true -> names_ok (enc_new sy nm) = true -> is_initial sy rho0 ->
+    let en := enc_new sy nm in
+    let n := length frees in
+    let sc := script3 en n in
+    let trace := run_from sy rho0 frees in
+    let at_step := fun k => nth (N.to_nat k) trace env0 in
+    script_check [] sc = true ->
+    (forall nm' t e k, In (DeclareConst nm' t) sc -> k <= N.of_nat n ->
+        sig_sym en e k = Some (mk_sym nm' t) -> same_val sigma0 (mk_sym nm' t) (at_step k) e) ->
+    forall e k s, observable sy e -> k <= N.of_nat n -> get_signal_at en e k = Some s ->
+      same_val (script_eval sigma0 sc) s (at_step k) e.
+Proof. exact script3_faithful_sys. Qed.
+Print Assumptions C04_script3_faithful.
+
+(** the system of that finding: rejected with [script Fixed] and [script2], accepted with [script3] *)
+Example C04_script3_example :
+  script_check [] (script3 (enc_new ex3_sys ex_nm) 2) = true /\
+  script_check [] (script2 (enc_new ex3_sys ex_nm) 2) = false /\
+  script_check [] (script Fixed (enc_new ex3_sys ex_nm) 0 2) = false.
+Proof. exact ex3_script3. Qed.
+
+(** ... and it satisfies the hypotheses of [C04_script3_wf] *)
+Example C04_script3_hypotheses_satisfiable :
+  sys_wf ex3_sys = true /\ names_ok (enc_new ex3_sys ex_nm) = true /\ init_deps_acyclic ex3_sys.
+Proof. exact ex3_acyclic. Qed.
